@@ -91,7 +91,8 @@ def check_hidden(ctx, lib, rule):
                 if inner:
                     src, chain = streams.iter_chain(inner[0][2][0])
                     good = src == keys[0][2][0] or any(c is keys[0] or c == keys[0] for _, c in chain)
-                    good = good and all(n in ("keys", "cloned", "copied", "collect", "iter") for n, _ in chain)
+                    # adaptors that keep every key exactly once (a re-ordering keeps the set)
+                    good = good and all(n in ("keys", "cloned", "copied", "collect", "iter", "into_iter", "to_vec", "rev") for n, _ in chain)
                     msg = show(inner[0], maxdepth=5)
             verify = [c for c in sym.calls(h, "verify_all_bound")]
             good = good and bool(verify)
